@@ -212,6 +212,22 @@ def run(unit):
                         expect_type_error('expr', text, 'bound variable used outside the element type of its domain', r, problems)
                         expect_type_error('pred', '{ ' + text + ' }', 'bound variable used outside the element type of its domain', r, problems)
                         expect_type_error('prop', 'globally: no t { ' + text + ' }', 'bound variable used outside the element type of its domain', r, problems)
+        # a variable bound over an ARRAY (element type open) used at two disjoint types, the occurrences spread over
+        # the scopes of nested quantifiers (inner body, inner domain, index) and sibling conjuncts
+        uses = {'N': ['@i > 0', 'xs[@i] > 0', 'x in [0 to @i]', 'abs(@i) > 0'], 'B': ['not @i', '@i and p'], 'S': ['@i = "a"']}
+        for k1 in uses:
+            for k2 in uses:
+                if k1 == k2:
+                    continue
+                for u1 in uses[k1]:
+                    for u2 in uses[k2][:2]:
+                        for text in (f'forall i in ys: ({u1} and exists j in zs: (@j > 0 and {u2}))', f'forall i in ys: ((exists j in zs: (@j > 0 and {u2})) and {u1})',
+                                     f'exists i in ys: (forall j in zs: ({u2} or @j > 0) and {u1})', f'forall i in ys: ({u1} and forall j in zs: (exists k in ws: (@k > @j and {u2})))',
+                                     f'forall i in ys: (forall j in [0 to len(zs)]: ({u1} and @j > 0) and {u2})'):
+                            r.count('evaluations')
+                            r.count('states')
+                            expect_type_error('pred', '{ ' + text + ' }', 'bound variable used at two disjoint types across nested quantifiers', r, problems)
+                            expect_type_error('prop', 'globally: no t { ' + text + ' }', 'bound variable used at two disjoint types across nested quantifiers', r, problems)
         seen = set()
         for kind_, detail in problems:
             if kind_ in seen:
@@ -328,7 +344,7 @@ def replay(w):
 def describe(tier):
     b = bounds(tier)
     return {
-        'rule': f"base: every accepted Bool term with <= {b['nodes']} nodes of the C04 universe for schemas {list(b['schemas'])}; for every argument position (operands of all operators, function arguments, range bounds, set elements, quantifier domains and bodies, indices) every filler of a 15-term menu (literals of each primitive sort, operator / function / quantifier results of each sort, a set, a range) whose own type is disjoint from the parameter type is injected - one clash per text, confirmed by the reference definite-clash analysis - and parsed as expression, predicate and property; plus reuse of each reference at a disjoint type (both conjunct orders) through the predicate, condition and property parsers; plus non-boolean roots; plus 10 field pairs required at two disjoint types with one occurrence written through the event's own alias (in every slot kind, 3 orders, 3 event positions) and 6 computed-index elements used at two types; plus quantifiers over set / range literals whose bound variable is used at a type disjoint from the element type, alone and after 1-2 loosely typed occurrences (6 domains x 2 quantifiers x 3-4 clashing uses x 13 bodies); plus the signature matrix: every unary / binary operator and every built-in function with every wrong-sorted non-reference operand / argument (3 shapes per sort), every misuse of its result at a disjoint type, and one-argument calls of the two-argument functions. Plus 22 uses of the event's own alias as a whole message where another type is required x 4 event positions. evaluations = injected texts; every one must raise TypeError.",
+        'rule': f"base: every accepted Bool term with <= {b['nodes']} nodes of the C04 universe for schemas {list(b['schemas'])}; for every argument position (operands of all operators, function arguments, range bounds, set elements, quantifier domains and bodies, indices) every filler of a 15-term menu (literals of each primitive sort, operator / function / quantifier results of each sort, a set, a range) whose own type is disjoint from the parameter type is injected - one clash per text, confirmed by the reference definite-clash analysis - and parsed as expression, predicate and property; plus reuse of each reference at a disjoint type (both conjunct orders) through the predicate, condition and property parsers; plus non-boolean roots; plus 10 field pairs required at two disjoint types with one occurrence written through the event's own alias (in every slot kind, 3 orders, 3 event positions) and 6 computed-index elements used at two types; plus quantifiers over set / range literals whose bound variable is used at a type disjoint from the element type, alone and after 1-2 loosely typed occurrences (6 domains x 2 quantifiers x 3-4 clashing uses x 13 bodies); plus the signature matrix: every unary / binary operator and every built-in function with every wrong-sorted non-reference operand / argument (3 shapes per sort), every misuse of its result at a disjoint type, and one-argument calls of the two-argument functions. Plus 22 uses of the event's own alias as a whole message where another type is required x 4 event positions. Plus a variable bound over an array used at two disjoint types with the occurrences spread over nested quantifiers (7 uses x 5 nesting shapes). evaluations = injected texts; every one must raise TypeError.",
         'bounds': {'nodes': b['nodes']},
         'exhaustive': True,
         'assumptions': ['= / != clashes are generated only between two operands that each certainly have one base type (literal or operator/function result); transitive clashes through references and heterogeneous sets are not claimed and not generated'],
